@@ -34,8 +34,12 @@ from vlib import core, corr
 from . import c02_ref as R
 from . import c02_twin as T
 from . import c02_keyphase as K
+from . import c02_keyderive as KD
 
-DEPENDS = ["PacketNumber", "Protect", "KeyPhase", "PnGen", "PacketNumberProofs", "ProtectProofs", "KeyPhaseProofs", "Base", "Tok", "C02"]
+GENERATORS = ["c02_pure", "c02_keys"]
+
+DEPENDS = ["PacketNumber", "Protect", "KeyPhase", "PnGen", "PacketNumberProofs", "ProtectProofs", "KeyPhaseProofs", "Base", "Tok", "C02",
+           "C02Keys", "KeyDerive", "KeyDeriveProofs"]
 TRUSTED_BASE = [
     "extraction (ExtrOcamlBasic only; Z kept as the extracted inductive) + coq/extract/driver.ml for running the models",
     "harness/props/c02.py + c02_ref.py (independent RFC 9001/9369 implementation; decides what 'agree' means) and the "
@@ -1185,6 +1189,21 @@ def suites(ctx, known):
     return pn, pt, kp
 
 
+def kd_suite(ctx, known):
+    return corr.Suite(ctx, "keyderive", "exec_keyderive", KD.encode, KD.impl, lambda c: known.filter(KD.oracle(c), c), nontrivial=KD.nontrivial)
+
+
+def run_keyderive(ctx, known):
+    kd = kd_suite(ctx, known)
+    kd.run(corr.load_corpus("C02", "keyderive"), "corpus")
+    cases = KD.gen_cases(ctx.rng, ctx.n(900, 6000), ctx.thorough)
+    for i in range(0, len(cases), 500):
+        kd.run(cases[i:i + 500])
+    for c in cases:
+        kd.stats["outcome_histogram"][KD.histogram_key(c)] += 1
+    return kd
+
+
 def run(ctx):
     known = Known(ctx)
     pn, pt, kp = suites(ctx, known)
@@ -1213,16 +1232,19 @@ def run(ctx):
         kp.stats["outcome_histogram"]["max-generation-%d" % max([0] + [t for t in K.trace(_SELF, c)[0][-10:] if isinstance(t, int)])] += 1
     st = run_connection(ctx, known, extra)
     tw = run_twin(ctx, known, extra)
+    kd = run_keyderive(ctx, known)
     extra["known_finding_cases"] = dict(known.hits)
     extra["implementation_variant"] = {"v2_key_update_label": (probe()["v2_ku_label"] or b"quicv2 ku").decode(),
                                        "truncated_pn_signed": probe()["signed_pn"]}
     extra["exhaustive_small_scope"] = "decode_packet_number: all 256 truncated values x %d expected values (8-bit encoding)" % len(es)
     cov = corr.merge_coverage(
-        [pn, pt, kp],
+        [pn, pt, kp, kd],
         "pn: boundary tables + random (expected, truncated, width) and all 256 truncated values for ranges of expected around 0, "
         "2^32 and 2^62; protect: tuples (kind in hp-apply/hp-remove/nonce/encrypt/decrypt, suite, version, key phases of sender and "
         "receiver, header form and length, pn length, payload size 0..max, pn, expected pn, optional single-byte corruption) with bytes "
-        "derived from a per-case seed; connection: live flights with every byte (bit) of every packet altered; distinct = distinct token "
+        "derived from a per-case seed; keyderive: calls of hkdf_label / hkdf_expand_label / derive_key_iv_hp / setup_initial / "
+        "n key updates / Retry key selection over 3 suites + an unknown one x versions 1, 2 and others x both roles x label, context, "
+        "secret and output lengths at the struct / HKDF limits, HMAC answers as data; connection: live flights with every byte (bit) of every packet altered; distinct = distinct token "
         "encoding, non-trivial = in the property's domain / produces a packet",
         extra)
     cov["evaluations"] += st["mutants"] + st["genuine"] + extra.get("rfc_vectors", 0) + tw["runs"]
@@ -1241,6 +1263,10 @@ def replay(ctx, rep):
     elif isinstance(case, dict) and "ops" in case:
         d, e, g = kp.disagree(case)
         res["keyphase"] = {"disagree": d, "impl": e, "model": g, "oracle": kp_oracle(case)}
+    elif isinstance(case, dict) and case.get("kind") in ("label", "expand", "derive", "initial", "update", "retry"):
+        kd = kd_suite(ctx, known)
+        d, e, g = kd.disagree(case)
+        res["keyderive"] = {"disagree": d, "impl": e[:80], "model": g[:80], "oracle": KD.oracle(case)}
     elif isinstance(case, dict) and "kind" in case:
         d, e, g = pt.disagree(case)
         res["protect"] = {"disagree": d, "impl": e[:60], "model": g[:60], "oracle": pt_oracle_raw(case)}
